@@ -81,7 +81,7 @@ CLAIMED = {
             "Verdict equivalence with a reference parser is not decided (not decidable by this family); only the named tables and shapes are. One known finding: `schema { query: }` is accepted (root_operation_type_definition, missing NamedType), see known_findings.json.",
             "string-pattern table extraction (HIR) + must-pass-through over MIR CFG + sibling table comparison + token-kind abstract interpretation of the grammar functions against graphql.ungram", False),
     "C28": ("other",
-            "The scalar coercion table (built-in names, JSON predicates consulted per name, bounds) and the structural shape of null/list/input-object/variable-map handling, extracted from the type-checked match arms and if-chains; plus the table of graphql_value_to_json, which turns default values into JSON (defaults are not coerced again): faithful per literal kind, Int / Float literals through the parser of their own text and never a narrowing conversion; the caller's JSON value is returned unchanged only on paths where the type is a scalar or an enum.",
+            "The scalar coercion table (built-in names, JSON predicates consulted per name, bounds) and the structural shape of null/list/input-object/variable-map handling, extracted from the type-checked match arms and if-chains; plus the table of graphql_value_to_json, which turns default values into JSON (defaults are not coerced again): faithful per literal kind, Int / Float literals through the parser of their own text and never a narrowing conversion; the caller's JSON value is returned unchanged only on paths where the type is a scalar or an enum. A variable's default value is coerced to the declared type like a provided value (C28.DEFCOERCE; it was inserted as written - found and repaired).",
             "Clause-level: numeric edge values and serde_json_bytes' predicates are not decided.",
             "decision-table extraction over HIR match arms and if-chains", False),
     "C15": ("other",
